@@ -78,6 +78,8 @@ def main():
             env["VERIF_REPLAYS"] = "/var/tmp/verif-seed-replays"
             os.makedirs(env["VERIF_EVID"], exist_ok=True)
             props = [P] + [x for x in os.environ.get("SEED_EXTRA_PROPS", "").split(",") if x]
+            if os.environ.get("SEED_SKIP_CHECKS"):
+                props = []
             r["checks"] = {}
             for q in props:
                 t0 = time.time()
